@@ -82,12 +82,14 @@ func main() {
 	att = e.attestationCases()
 	gv = e.govCases(n / 4)
 	rc = e.ibcRecvCases()
+	stf := e.sendToFxIbcCases()
 
 	imports := []string{"model.M_Cache", "model.M_CacheCorr"}
 	lib.WriteCases("Cases_C18_bridgecall.v", imports, "bc_case", bc, "bc_mismatch")
 	lib.WriteCases("Cases_C18_attestation.v", imports, "att_case", att, "att_mismatch")
 	lib.WriteCases("Cases_C18_gov.v", imports, "gov_case", gv, "gov_mismatch")
 	lib.WriteCases("Cases_C18_ibcrecv.v", imports, "recv_case", rc, "recv_mismatch")
+	lib.WriteCases("Cases_C18_sendtofx.v", imports, "stf_case", stf, "stf_mismatch")
 	e.rep.Write()
 }
 
